@@ -464,7 +464,7 @@ class C18(Prop):
             # 15 % as short as the kernel, 8 % SHORTER than the kernel (outside the quantifier: model only)
             n = m if how < 0.15 else rng.randint(1, m - 1) if how < 0.23 and m > 1 else rng.randint(m, max(40, m + 8))
             const = rng.random() < 0.25
-            unit = const or rng.random() < 0.5
+            unit = rng.random() < (0.75 if const else 0.5)      # a constant signal also meets kernels that do not sum to one
             c = rng.randint(-400, 400)
             x = [c] * n if const else [rng.randint(-400, 400) for _ in range(n)]
             return {"kind": kind, "x": x, "psf": self.gen_psf(rng, m, unit)}
@@ -764,7 +764,7 @@ class C18(Prop):
         m = rng.choice([1, 2, 3, 4, 5, 6, 7, 8, 9])
         n = m if rng.random() < 0.15 else rng.randint(m, 40)
         const = rng.random() < 0.25
-        unit = const or rng.random() < 0.5
+        unit = rng.random() < (0.75 if const else 0.5)
         lo, hi = (0, 9) if xdt == "uint8" else (-400, 400)
         c = rng.randint(lo, hi)
         x = [c] * n if const else [rng.randint(lo, hi) for _ in range(n)]
